@@ -1,8 +1,10 @@
 SPECIFICATION Spec
 CONSTANTS NC = 3 NI = 2 Delays = {1, 2} PassTimeouts = {0} Filters = {"all"}
           Nesting = TRUE ReAdds = 1 ExtFut = FALSE ReapOwnOnly = TRUE LateCancel = TRUE
+          HScripts = {"raise"} CoHandlers = FALSE ClaimFirst = TRUE
 INVARIANT TypeOK
 INVARIANT ExactlyOnce
+INVARIANT ClaimedOnce
 INVARIANT NoTimeoutAfterClaim
 INVARIANT OutstandingWillEnd
 INVARIANT TableAgrees
